@@ -15,7 +15,7 @@ CHECKS = {
          "Statement read permissively (case-insensitive names, any source from port 5353, QR/opcode/rcode not matching attributes); head-of-line blocking behind an unreachable server is counted, not flagged (time stays bounded).",
          "DESIGN.md 3/C19"),
  "C01": ("model-based PBT over a simulated two-node world with generated per-frame fault schedule (stream-prefix oracle)",
-         "Two real smoltcp endpoints (buffers 1..262144, MTU from the minimum, CC none/Reno/CUBIC, delayed ACK/Nagle/timestamps, ISNs steered to wrap points, IPv4/IPv6, raw-IP/Ethernet) exchange PRF streams in both directions over a link that drops/duplicates/delays/reorders/bit-flips for the whole run; at every recv the bytes received must be a prefix of what the peer wrote so far, Finished only after everything written before close. Random exploration of fault schedules and configurations; capped at 20000 events per case. In 1 of 4 worlds both applications first abort a connection after 100-500 events under faults and start over on the same socket objects (streams re-keyed): nothing of the old connection may show.",
+         "Two real smoltcp endpoints (buffers 1..262144, MTU from the minimum, CC none/Reno/CUBIC, delayed ACK/Nagle/timestamps, ISNs steered to wrap points, IPv4/IPv6, raw-IP/Ethernet) exchange PRF streams in both directions over a link that drops/duplicates/delays/reorders/bit-flips for the whole run; at every recv the bytes received must be a prefix of what the peer wrote so far, Finished only after everything written before close. Random exploration of fault schedules and configurations; capped at 20000 events per case. In 1 of 4 worlds both applications first abort a connection after 100-500 events under faults and start over on the same socket objects (streams re-keyed): nothing of the old connection may show; a 'stream ends at the receiver's buffer edge' mode (buffer > 64 KiB, odd MTU, late reader) puts the FIN on a segment clipped at the scaling-rounded window edge.",
          "Bit flips confined to regions where the Internet checksum guarantees detection; PRF stream contents; virtual time owned by the harness.",
          "DESIGN.md 3/C01"),
  "C02": ("invariant + deadlock/livelock detection in a closed simulated world driven only by poll_at, frame arrival and API calls",
@@ -23,7 +23,7 @@ CHECKS = {
          "The harness owns clock and schedule; cap hits with recent progress are inconclusive, never violations; applications read out remaining data as soon as the connection is over.",
          "DESIGN.md 3/C02"),
  "C03": ("crash/hang-oracle fuzzing of Interface::poll by generated frame sequences (random, grammar, mutated, reflected) + liveness probe",
-         "Interface over Ethernet, raw IP and IEEE 802.15.4 with a socket zoo (TCP listening/connecting/established incl. >64 KiB buffers, UDP, ICMP, raw, DNS with a pending query, DHCPv4, SLAAC, joined groups) is fed 1..64 steps per case: random bytes, grammar frames for every supported protocol (IPv4 options/fragments, IPv6 extension headers, ARP/NDISC/MLD/IGMP/DHCP/DNS, 6LoWPAN IPHC/NHC/FRAG trains), boundary/length/truncate/splice mutations with optional checksum fix-up, reflections answering the stack's own recent output, time advances to 1 h and application actions; polls with unlimited or 0..3-frame transmit budgets. Oracle: no poll panics inside smoltcp (attributed by backtrace), none hangs (10 s watchdog = exit 2; > 50000 frames in one poll with <= 2 KiB queued per socket = non-terminating egress loop), and afterwards a fresh neighbour is still resolved and its echo request answered on an address the interface provably still holds. Four defects found and fixed in /repo; 5 of 7 hand mutants killed (one equivalent) per sub-agent report.",
+         "Interface over Ethernet, raw IP and IEEE 802.15.4 with a socket zoo (TCP listening/connecting/established incl. >64 KiB buffers, UDP, ICMP, raw, DNS with a pending query, DHCPv4, SLAAC, joined groups) is fed 1..64 steps per case: random bytes, grammar frames for every supported protocol (IPv4 options/fragments, IPv6 extension headers, ARP/NDISC/MLD/IGMP/DHCP/DNS, 6LoWPAN IPHC/NHC/FRAG trains), boundary/length/truncate/splice mutations with optional checksum fix-up, reflections answering the stack's own recent output, time advances to 1 h and application actions; polls with unlimited or 0..3-frame transmit budgets. Oracle: no poll panics inside smoltcp (attributed by backtrace), none hangs (10 s watchdog = exit 2; > 50000 frames in one poll with <= 2 KiB queued per socket = non-terminating egress loop), and afterwards a fresh neighbour is still resolved and its echo request answered on an address the interface provably still holds. Four defects found and fixed in /repo; 5 of 7 hand mutants killed (one equivalent) per sub-agent report. The check runs against two builds of smoltcp: the harness' enlarged limits and the default 1500-octet fragmentation / reassembly buffers (where the buffer boundary is reachable on 6LoWPAN); echo requests are aimed at that boundary.",
          "Application misuse that smoltcp documents as a panic (IP version mismatch on send) is kept out of the generators; DHCP events are observed but not applied so the IPv4 address stays static; the probe uses the link-local/IPv4 address because SLAAC may legitimately remove a global one; a poll that consumes more than 10 s of CPU time without returning is a violation (CPU-time watchdog, vkit::hang); wall-clock stalls without CPU consumption are exit 2, never a violation.",
          "DESIGN.md 3/C03"),
  "C04": ("model-based PBT: scripted TCP peer vs reference receiver, independent TCP codec",
